@@ -24,13 +24,16 @@ for name in sorted(os.listdir(S), key=lambda n: (n.split('-')[0], int(n.split('-
         for line in open(np_):
             if line.startswith('#'):
                 title = re.sub(r'^#+\s*', '', line).strip()
-                title = re.sub(r'^(Mutant|Mutation|Change|Seeded change)\s*\w*\s*[—:\-–]+\s*', '', title, flags=re.I)
+                title = re.sub(r'^(C\d\d\s+)?(Mutant|Mutation|Change|Seeded change|m)\s*\w*\s*(\(C\d\d\))?\s*[—:\-–]+\s*', '', title, flags=re.I)
                 title = re.sub(r'^C\d\d[- ]m?\w*\s*[—:\-–]+\s*', '', title)
                 break
     if meta.get('origin', '').startswith('revert'):
         title = title or 'revert of a fix: commit'
     sig = (meta.get('signatures_reported') or [''])[0]
-    rows.append('| %s | %s | %s | `%s` |' % (name, meta.get('status', '?'), title.replace('|', '/')[:160], sig[:90]))
+    st_txt = meta.get('status', '?')
+    if meta.get('run_check'):
+        st_txt += ' (by ./check %s)' % meta['run_check']
+    rows.append('| %s | %s | %s | `%s` |' % (name, st_txt, title.replace('|', '/')[:160], sig[:90]))
 print('\n'.join(rows))
 st = {}
 for r in rows:
